@@ -1,4 +1,5 @@
 import JT.Proof.ActInt
+import JT.Gen.ConcShape
 /-!
 # C12 — platform commands are matched with their own responses
 
@@ -95,4 +96,10 @@ theorem offline_refused {s t : St} (r : Nat) (hp : s.place r = .ops) (hreg : s.r
     exfalso; apply hch
     show (match s.place r with | .act => Place.done .closed | .recorded _ => .done .closed | p => p) = s.place r
     rw [hp]
+
+/-- assumptions of the transition system, read off the source on every run: lookup + hand-over to the connection is one
+manager operation, and the hand-over is a blocking send (a command for an online key is never dropped or refused
+because the connection's queue happens to be full) -/
+theorem command_handover_as_modelled : Gen.managerOpsInClosure = true ∧ Gen.enqueueBlocking = true := by decide
+
 end JT.C12
